@@ -24,7 +24,7 @@ RULE = ("E4: (a) reader-writer lock - the real RWLock with threading.Lock replac
         "pair of operations (k*G with lazily built table, mul_add, equality, rescaling, affine conversion, coordinates, encoding, addition, "
         "signature verification with a shared key) thread A is preempted at EVERY line event inside the library and thread B runs to completion "
         "in a second thread at that point; both results must equal the sequential results on private copies."
-        ' Scenarios S5/S6 share a table-bearing generator point with z != 1 (table built / not yet built). Family curve2: TWO preemptions placed at shared-state accesses (lines with attribute accesses on self/other/cls or module-level variables, from the AST of every traced file): A runs to its i-th access, B to its j-th, A to its end, B to its end, for every i and j. Every lock type the module could create (Lock, RLock, Semaphore, Event, Condition) is replaced by a cooperative one.')
+        ' Scenarios S7/S8 do the same for the other point class, PointEdwards, on a small complete twisted Edwards curve (p = 509, subgroup order 127) with its own textbook affine reference: a generator with z != 1 whose table is not yet built (S7) / built (S8), plain points rescaled in place. Scenarios S5/S6 share a table-bearing generator point with z != 1 (table built / not yet built). Family curve2: TWO preemptions placed at shared-state accesses (lines with attribute accesses on self/other/cls or module-level variables, from the AST of every traced file): A runs to its i-th access, B to its j-th, A to its end, B to its end, for every i and j. Every lock type the module could create (Lock, RLock, Semaphore, Event, Condition) is replaced by a cooperative one.')
 ASSUMPTIONS = [
     "interleavings are explored at lock-operation granularity (lock) and source-line granularity (curve objects) under the GIL's atomicity; "
     "no claim about free-threaded builds or races inside single bytecodes",
